@@ -1,7 +1,7 @@
 // Recording Impl for formak::runtime::ManagedFilter (the header under test comes from /repo).
 // Line protocol on stdin:
 //   new <cfg> <t0 bits>                      cfg = 4*K + combo ; combo 0: control+calibration, 1: control only, 2: calibration only, 3: neither
-//   tick <out bits> <n> (<ts bits> <id>)*   prints the returned state's call log:  p <dt bits>|s <id>|...
+//   tick <out bits> <with_list> <control id> <n> (<ts bits> <id>)*   prints the returned state's call log:  p <dt bits>|s <id>|...
 #include <formak/runtime/ManagedFilter.h>
 
 #include <cstdint>
@@ -25,14 +25,27 @@ static double unbits(const std::string& s) {
   return d;
 }
 
-struct Log {
-  std::vector<std::string> calls;
+// persistent call log: nodes live in a global arena, a state is the index of its last call (O(1) per call,
+// earlier snapshots stay valid, no deep recursion on destruction)
+struct Node {
+  std::string call;
+  int prev;
 };
+static std::vector<Node> ARENA;
+struct Log {
+  int head = -1;
+};
+static Log push(const Log& s, std::string call) {
+  ARENA.push_back(Node{std::move(call), s.head});
+  Log r;
+  r.head = static_cast<int>(ARENA.size()) - 1;
+  return r;
+}
 struct Cal {
   int dummy = 0;
 };
 struct Ctl {
-  int dummy = 0;
+  int id = 0;
 };
 
 constexpr double MAXDTS[] = {MAXDT_LIST};
@@ -41,16 +54,8 @@ template <int K, bool HasCtl, bool HasCal>
 struct Impl {
   struct StampedReadingBase {
     int id = 0;
-    Log sensor_model(const Impl&, const Log& s) const {
-      Log r = s;
-      r.calls.push_back("s " + std::to_string(id));
-      return r;
-    }
-    Log sensor_model(const Impl&, const Log& s, const Cal&) const {
-      Log r = s;
-      r.calls.push_back("s " + std::to_string(id));
-      return r;
-    }
+    Log sensor_model(const Impl&, const Log& s) const { return push(s, "s " + std::to_string(id)); }
+    Log sensor_model(const Impl&, const Log& s, const Cal&) const { return push(s, "s " + std::to_string(id)); }
   };
   struct Tag {
     using StateAndVarianceT = Log;
@@ -59,20 +64,18 @@ struct Impl {
     using StampedReadingBaseT = StampedReadingBase;
     static constexpr double max_dt_sec = MAXDTS[K];
   };
-  static Log step(double dt, const Log& s) {
-    Log r = s;
-    r.calls.push_back("p " + bits(dt));
-    return r;
+  static Log step(double dt, const Log& s, int ctl) {
+    return push(s, "p " + bits(dt) + (ctl ? " c" + std::to_string(ctl) : std::string()));
   }
-  Log process_model(double dt, const Log& s) const { return step(dt, s); }
-  Log process_model(double dt, const Log& s, const Cal&) const { return step(dt, s); }
-  Log process_model(double dt, const Log& s, const Ctl&) const { return step(dt, s); }
-  Log process_model(double dt, const Log& s, const Cal&, const Ctl&) const { return step(dt, s); }
+  Log process_model(double dt, const Log& s) const { return step(dt, s, 0); }
+  Log process_model(double dt, const Log& s, const Cal&) const { return step(dt, s, 0); }
+  Log process_model(double dt, const Log& s, const Ctl& u) const { return step(dt, s, u.id); }
+  Log process_model(double dt, const Log& s, const Cal&, const Ctl& u) const { return step(dt, s, u.id); }
 };
 
 struct Runner {
   virtual ~Runner() = default;
-  virtual Log tick(double out, const std::vector<std::pair<double, int>>& readings, bool with_list) = 0;
+  virtual Log tick(double out, const std::vector<std::pair<double, int>>& readings, bool with_list, int ctl) = 0;
 };
 
 template <int K, bool HasCtl, bool HasCal>
@@ -88,7 +91,7 @@ struct RunnerT : Runner {
       mf = std::make_unique<MF>(t0, Log{});
     }
   }
-  Log tick(double out, const std::vector<std::pair<double, int>>& readings, bool with_list) override {
+  Log tick(double out, const std::vector<std::pair<double, int>>& readings, bool with_list, int ctl) override {
     std::vector<typename MF::StampedReading> rs;
     for (const auto& [ts, id] : readings) {
       typename I::StampedReadingBase b;
@@ -96,8 +99,10 @@ struct RunnerT : Runner {
       rs.push_back(MF::wrap(ts, b));
     }
     if constexpr (HasCtl) {
-      if (with_list) return mf->tick(out, Ctl{}, rs);
-      return mf->tick(out, Ctl{});
+      Ctl u;
+      u.id = ctl;
+      if (with_list) return mf->tick(out, u, rs);
+      return mf->tick(out, u);
     } else {
       if (with_list) return mf->tick(out, rs);
       return mf->tick(out);
@@ -138,8 +143,8 @@ int main() {
       std::cout << "ok" << std::endl;
     } else if (op == "tick") {
       std::string o;
-      int n, with_list;
-      in >> o >> with_list >> n;
+      int n, with_list, ctl;
+      in >> o >> with_list >> ctl >> n;
       std::vector<std::pair<double, int>> rs;
       for (int i = 0; i < n; ++i) {
         std::string ts;
@@ -147,11 +152,13 @@ int main() {
         in >> ts >> id;
         rs.emplace_back(unbits(ts), id);
       }
-      Log r = cur->tick(unbits(o), rs, with_list != 0);
+      Log r = cur->tick(unbits(o), rs, with_list != 0, ctl);
+      std::vector<const std::string*> calls;
+      for (int k = r.head; k >= 0; k = ARENA[static_cast<size_t>(k)].prev) calls.push_back(&ARENA[static_cast<size_t>(k)].call);
       std::string outl;
-      for (size_t i = 0; i < r.calls.size(); ++i) {
+      for (size_t i = calls.size(); i-- > 0;) {
+        outl += *calls[i];
         if (i) outl += "|";
-        outl += r.calls[i];
       }
       std::cout << outl << std::endl;
     }
